@@ -180,6 +180,18 @@ def run(unit):
                     r.count('validated')
         r.sample({'property': text})
     elif kind == 'specs':
+        # events with explicitly written vacuous predicates (and near misses)
+        for ev_text in ('a { False }', 'a { True }', 'a as A { False }', '(a { False } or b { True })', 'a { not True }', 'a { True and True }', 'a { False or p }'):
+            for tmpl in ('globally: no %s', 'after %s: some z', 'until %s: z causes w within 1 s', 'globally: %s forbids z'):
+                text = tmpl % ev_text
+                r.count('evaluations')
+                st, obj = impl.try_parse('prop', text)
+                if st != 'ok':
+                    r.notes['rejected:' + st] += 1
+                    continue
+                r.count('states')
+                for pk_, detail in roundtrip('prop', obj, text, r):
+                    r.violation(f'{pk_} [property with a vacuous predicate]', {'kind': 'prop', 'text': text}, detail, size=len(text))
         pool = [
             'globally: no a', 'after s as S: some b {x = @S.x} within 2 s', 'until (e or e2): (g or h) causes b', 'after s until e: b requires g within 100 ms',
             '# id: q\nglobally: g forbids (b or c or d)', 'globally: some b {forall i in xs: @i > 0}',
